@@ -336,7 +336,16 @@ def module_load(chk):
         flat = p.holds("self.weight_qtype is None") is False and p.holds(f"{prefix} + 'weight' in {sd}") is False
         w = stores.get("weight")
         if flat:
-            if w is None:
+            # a path that writes the deserialized tensor INTO the current weight (a copy procedure that receives both): not a rebinding, so
+            # outside what this rule describes
+            into = [ef for ef in p.effects if len(ef) > 1 and isinstance(ef[1], ast.AST) and any(U(x).startswith("self.weight") for x in ast.walk(ef[1]) if isinstance(x, (ast.Attribute, ast.Name))) and ef[0] in ("expr", "store", "substore", "augstore")] if w is None else []
+            # `self.weight.copy_(x)` goes through the dispatch of the weight's class, and the sub-byte class has no copy_ (C05.R18 (c)): that stays a
+            # path on which the flattened weight is not rebuilt; writes into the inner tensors themselves are the undecided case
+            whole = [ef for ef in into if any(isinstance(x, ast.Call) and isinstance(x.func, ast.Attribute) and x.func.attr == "copy_" and U(x.func.value) == "self.weight" for x in ast.walk(ef[1]))]
+            if w is None and into and not whole:
+                chk.unknown("C10.R2", site, f"load: on this path self.weight is not rebound but written into (`{U(into[0][1])[:60]}`): outside what the rule describes, not decided")
+                continue
+            elif w is None:
                 chk.bad("C10.R2", site, "QModuleMixin._load_from_state_dict", "flattened weight not rebuilt", "load: a flattened weight is present but self.weight is not rebuilt on this path", "reloading any frozen model")
                 continue
             val = w[3]
@@ -358,7 +367,8 @@ def module_load(chk):
                             "load_state_dict(assign=True) into a model built on the meta device: the frozen weight is moved to `meta`, its codes and scales are lost")
             if assign is not True and is_param:
                 inner = U(val.args[0]) if val.args else ""
-                chk.require("C10.R9", site, inner.endswith(".to(self.weight.device)"), f"load: rebuilt weight moved to the device of the current weight (`...{inner[-40:]}`)", "QModuleMixin._load_from_state_dict", "rebuilt weight device", "loading a CPU state_dict into a model on another device: weight and bias/scales end up on different devices")
+                # the device move may be wrapped by a copy of the moved tensor (`owned(x.to(self.weight.device), ...)`, `.clone()`)
+                chk.require("C10.R9", site, inner.endswith(".to(self.weight.device)") or ".to(self.weight.device)" in inner, f"load: rebuilt weight moved to the device of the current weight (`...{inner[-40:]}`)", "QModuleMixin._load_from_state_dict", "rebuilt weight device", "loading a CPU state_dict into a model on another device: weight and bias/scales end up on different devices")
         else:
             chk.require("C10.R2", site, w is None, "load: the weight is only replaced when a flattened quantized weight is present", "QModuleMixin._load_from_state_dict", "weight replaced on plain path", "reloading an unfrozen model")
     if n_flat_assign[False]:
